@@ -25,7 +25,7 @@ func init() {
 	reg.Register(runner.Check{
 		ID:    "C08",
 		Level: "exploration",
-		Rule: "Part A: every client instant t on a 1 s grid over 360 s (three key-slot boundaries, six minute ticks) plus +-1 ns / +-1 ms around every multiple of 60 s, x every skew d in [-60 s,+60 s] on a 1 s grid plus the exact bounds: the real cipher seals at t, the real server-side decrypt opens at t+d, both metadata layouts unmarshal; and every |d| in [240 s,600 s] (keys) / [120 s,600 s] (stamps) must be refused. " +
+		Rule: "Part A: every client instant t on a 1 s grid over 360 s (three key-slot boundaries, six minute ticks) plus +-1 ns / +-1 ms around every multiple of 60 s, x every skew d in [-60 s,+60 s] on a 1 s grid plus the exact bounds: the real cipher seals at t, the real server-side decrypt opens at t+d, metadata of every kind (session types 2..5, data and ack types 6..9, low-entropy data types 10/11 in all four modes) unmarshals; and every |d| in [240 s,600 s] (keys) / [120 s,600 s] (stamps) must be refused. " +
 			"Part B: explicit-state BFS over histories of key-cache lookups with non-monotonic instants and both extreme jitter draws, oracle = keys equal a fresh derivation for that instant. Part C: full handshakes of the real stack with the client clock skewed. distinct = distinct (t,d) pairs / cache states",
 		Assumptions: []string{
 			"instants and skews are enumerated on a 1 s grid refined to 1 ns / 1 ms around every multiple of 60 s; the rounding functions are piecewise constant between those points",
@@ -74,6 +74,27 @@ func units(tier string) []runner.Unit {
 	var us []runner.Unit
 	ts := instants()
 	const parts = 16
+	// allMeta returns plaintext metadata of every kind, stamped with the current virtual minute:
+	// session segments (types 2..5), data (6, 7), acks (8, 9), low-entropy data (10, 11 x 4 modes)
+	allMeta := func() (out [][]byte, names []string) {
+		for _, pt := range []uint8{2, 3, 4, 5} {
+			out = append(out, protocol.VerifSessionMeta(pt, 77, 0, 0, 0, 0))
+			names = append(names, fmt.Sprintf("session metadata type %d", pt))
+		}
+		for _, pt := range []uint8{6, 7, 8, 9} {
+			out = append(out, protocol.VerifDataMeta(pt, 77, 1, 0, 16, 0, 0, 0, 0))
+			names = append(names, fmt.Sprintf("data/ack metadata type %d", pt))
+		}
+		for _, pt := range []uint8{10, 11} {
+			for mode := uint8(1); mode <= 4; mode++ {
+				if m, err := protocol.VerifLEDataMeta(pt, mode); err == nil {
+					out = append(out, m)
+					names = append(names, fmt.Sprintf("low-entropy data metadata type %d mode %d", pt, mode))
+				}
+			}
+		}
+		return
+	}
 	for part := 0; part < parts; part++ {
 		part := part
 		us = append(us, runner.Unit{Name: fmt.Sprintf("agree-%02d", part), Cost: 3, Run: func(u *runner.U) {
@@ -94,6 +115,7 @@ func units(tier string) []runner.Unit {
 					return
 				}
 				dataMeta := protocol.VerifDataMeta(6, 77, 1, 0, 16, 0, 0, 0, 0)
+				kinds, kindNames := allMeta()
 				for _, d := range skews {
 					at(t + d)
 					cnt++
@@ -113,6 +135,12 @@ func units(tier string) []runner.Unit {
 					if err := protocol.VerifUnmarshalMeta(meta); err != nil {
 						u.Violation("C08/timestamp-refused", fmt.Sprintf("session metadata stamped at epoch+%v refused at epoch+%v (skew %v): %v", time.Duration(t), time.Duration(t+d), time.Duration(d), err), "", "")
 						return
+					}
+					for ki, km := range kinds {
+						if err := protocol.VerifUnmarshalMeta(km); err != nil {
+							u.Violation("C08/timestamp-refused", fmt.Sprintf("%s stamped at epoch+%v refused at epoch+%v (skew %v): %v", kindNames[ki], time.Duration(t), time.Duration(t+d), time.Duration(d), err), "", "")
+							return
+						}
 					}
 					if err := protocol.VerifUnmarshalMeta(dataMeta); err != nil {
 						u.Violation("C08/timestamp-refused", fmt.Sprintf("data metadata stamped at epoch+%v refused at epoch+%v (skew %v): %v", time.Duration(t), time.Duration(t+d), time.Duration(d), err), "", "")
@@ -139,10 +167,17 @@ func units(tier string) []runner.Unit {
 					u.Violation("C08/seal-failed", err.Error(), "", "")
 					return
 				}
+				kinds, kindNames := allMeta()
 				for _, sign := range []int64{-1, 1} {
 					for d := int64(120); d <= 600; d++ {
 						at(t + sign*d*1e9)
 						cnt++
+						for ki, km := range kinds {
+							if err := protocol.VerifUnmarshalMeta(km); err == nil {
+								u.Violation("C08/stale-timestamp-accepted", fmt.Sprintf("%s stamped at epoch+%v accepted at a receiver whose clock is %v away", kindNames[ki], time.Duration(t), time.Duration(sign*d*1e9)), "", "")
+								return
+							}
+						}
 						if err := protocol.VerifUnmarshalMeta(meta); err == nil {
 							u.Violation("C08/stale-timestamp-accepted", fmt.Sprintf("metadata stamped at epoch+%v accepted at a receiver whose clock is %v away", time.Duration(t), time.Duration(sign*d*1e9)), "", "")
 							return
